@@ -45,6 +45,7 @@ type Cfg struct {
 	ErrKind int    `json:"-"`      // what a failed write returns: 0 plain error, 1 temporary net.Error, 2 timeout net.Error
 	Dest    int    `json:"-"`      // destination variant (broadcast / unicast / scoped link-local / scoped multicast)
 	BigReq  int    `json:"-"`      // octets of vendor information added to the request (0: none): requests beyond one Ethernet frame
+	High    int    `json:"-"`      // > 0: the callers use a call built on SendAndRead (which one: see the High methods) instead of SendAndRead itself
 	XidMap  int    `json:"-"`      // how the transaction ids appear on the wire (ordinary values, all zeroes / all ones)
 	RFault  bool   `json:"rfault"` // the schedule may make a read on the open connection fail
 	ReadErrKind int `json:"-"`     // what ReadFrom returns once the connection is closed, and what a failed read on the open connection returns
@@ -67,6 +68,8 @@ type clientAPI interface {
 	Prepare(ctx context.Context, xid int, verdict func(id int, isNil bool) bool, nilMatch bool, onReq func([]byte)) func() (int, bool, error)
 	// Fire: a one-shot transmission that expects no answer through the client (nclient4.Release); ok=false: no such call in this API
 	Fire(xid int) (dest *net.UDPAddr, call func() error, ok bool)
+	// High: one of the library's calls built on SendAndRead (DiscoverOffer, Inform, Solicit, ...), with the transaction id given
+	High(ctx context.Context, xid int, kind int) (dest *net.UDPAddr, call func() error)
 	Close() error
 	Classify(err error) string
 	Datagram(id, xid int, kind string) []byte
@@ -439,6 +442,30 @@ func (s *Sim) start(c int) {
 	s.emit("Start", "c", c)
 	xid := s.cfg.Xid[c-1]
 	ctx := s.ctxs[c-1]
+	if s.cfg.High > 0 {
+		dest, call := s.api.High(ctx, xid, s.cfg.High)
+		s.conn.mu.Lock()
+		s.conn.destFor[role] = dest
+		s.conn.mu.Unlock()
+		go func() {
+			s.mu.Lock()
+			s.roles[goid()] = role
+			s.mu.Unlock()
+			defer func() {
+				if r := recover(); r != nil {
+					s.record(role, "Panic", r)
+					s.record(role, "Return", "panic", 0)
+				}
+			}()
+			res := "msg"
+			if err := call(); err != nil {
+				res = s.api.Classify(err)
+			}
+			s.record(role, "Return", res, 0)
+		}()
+		s.wait(role)
+		return
+	}
 	go func() {
 		s.mu.Lock()
 		s.roles[goid()] = role
